@@ -992,6 +992,11 @@ func serveTLS(seed int64, good, bad, msgs int) string {
 
 // ---------------------------------------------------------------- discovery
 
+// discoverBW: set by `discover <n> bw`: every responder answers block-wise (two 16-byte blocks, RFC 7959): the server's
+// connection for that responder fetches the second block with the discovery request found by its token, and the receiver
+// must get ONE complete body.
+var discoverBW bool
+
 func discover(responders int, dup bool, failFirst ...bool) string {
 	l, err := coapNet.NewListenUDP("udp4", "127.0.0.1:0")
 	if err != nil {
@@ -1051,11 +1056,58 @@ func discover(responders int, dup bool, failFirst ...bool) string {
 			resp.SetType(message.NonConfirmable)
 			resp.SetMessageID(int32(7000 + i))
 			resp.SetContentFormat(message.TextPlain)
-			resp.SetBody(strings.NewReader(fmt.Sprintf("r%d", i)))
+			body := fmt.Sprintf("r%d", i)
+			if discoverBW {
+				body += strings.Repeat(".", 24-len(body))
+				resp.SetOptionUint32(message.Block2, 0<<4|8|0) // block 0, more, 16 bytes
+				resp.SetBody(strings.NewReader(body[:16]))
+			} else {
+				resp.SetBody(strings.NewReader(body))
+			}
 			b, _ := resp.MarshalWithEncoder(udpcoder.DefaultCoder)
 			_, _ = pc.WriteToUDP(b, from)
+			if discoverBW {
+				defer func() {
+					// the request for the second block
+					for k := 0; k < 4; k++ {
+						_ = pc.SetReadDeadline(time.Now().Add(time.Second))
+						n, from, err := pc.ReadFromUDP(buf)
+						if err != nil {
+							return
+						}
+						q := pool.NewMessage(context.Background())
+						if _, err := q.UnmarshalWithDecoder(udpcoder.DefaultCoder, buf[:n]); err != nil {
+							continue
+						}
+						blk, err := q.GetOptionUint32(message.Block2)
+						if err != nil || blk>>4 != 1 {
+							continue
+						}
+						if path, _ := q.Path(); path != "/oic/res" || q.Code() != codes.GET || !bytes.Equal(q.Token(), req.Token()) {
+							continue // not a continuation of the discovery request this responder answered
+						}
+						r2 := pool.NewMessage(context.Background())
+						r2.SetCode(codes.Content)
+						r2.SetToken(q.Token())
+						r2.SetContentFormat(message.TextPlain)
+						r2.SetOptionUint32(message.Block2, 1<<4|0)
+						r2.SetBody(strings.NewReader(body[16:]))
+						if q.Type() == message.Confirmable {
+							r2.SetType(message.Acknowledgement)
+							r2.SetMessageID(q.MessageID())
+						} else {
+							r2.SetType(message.NonConfirmable)
+							r2.SetMessageID(int32(7200 + i))
+						}
+						b2, _ := r2.MarshalWithEncoder(udpcoder.DefaultCoder)
+						_, _ = pc.WriteToUDP(b2, from)
+						return
+					}
+				}()
+			}
 			// and a stray response with a foreign token from the same responder
 			resp.SetToken(message.Token{0xAB, byte(i)})
+			resp.Remove(message.Block2) // the stray is a plain single-datagram response
 			resp.SetMessageID(int32(7100 + i))
 			b, _ = resp.MarshalWithEncoder(udpcoder.DefaultCoder)
 			_, _ = pc.WriteToUDP(b, from)
@@ -1139,7 +1191,7 @@ func discover(responders int, dup bool, failFirst ...bool) string {
 				idx = i
 			}
 		}
-		if idx >= 0 && g.tag == fmt.Sprintf("r%d", idx) && strings.HasPrefix(g.tok, "d15c0f") {
+		if idx >= 0 && strings.TrimRight(g.tag, ".") == fmt.Sprintf("r%d", idx) && (!discoverBW || len(g.tag) == 24) && strings.HasPrefix(g.tok, "d15c0f") {
 			okc++
 		} else {
 			badc++
@@ -1191,6 +1243,11 @@ func TestC10(t *testing.T) {
 		case len(f) == 3 && f[0] == "discover" && f[2] == "failsend":
 			n, _ := strconv.Atoi(f[1])
 			fmt.Fprintln(w, discover(n, false, true))
+		case len(f) == 3 && f[0] == "discover" && f[2] == "bw":
+			n, _ := strconv.Atoi(f[1])
+			discoverBW = true
+			fmt.Fprintln(w, discover(n, false))
+			discoverBW = false
 		case (len(f) == 2 || len(f) == 3 && f[2] == "dup") && f[0] == "discover":
 			n, _ := strconv.Atoi(f[1])
 			fmt.Fprintln(w, discover(n, len(f) == 3))
